@@ -113,9 +113,8 @@ def main(argv=None):
         for fn in getattr(mod, "REACH", []):
             if fn not in reach_seen:
                 incon.append("anchored function %s was never entered" % fn)
-    if ctx.inconclusive:
-        # individual inconclusive cases are reported, they do not fail the check
-        pass
+    if ctx.events.get("shard-stopped-early"):
+        incon.append("%d shard(s) stopped early after repeated wall-clock watchdog timeouts" % ctx.events["shard-stopped-early"])
 
     wall = time.time() - t0
     print("[%s] tier=%s seed=%d shards=%d evaluations=%d distinct_nontrivial=%d wall=%.1fs" % (
